@@ -210,7 +210,11 @@ def exact(chk, F):
         r = ap[0]
         if r[0] == "call" and r[1] in ("<types::numeric::Numeric as core::cmp::PartialEq>::eq", "<types::numeric::Numeric as core::cmp::PartialEq>::ne"):
             s = ap_str(ap)
-            if "arg2.value" in s and ("Numeric::zero()" in s):
+            fzero = False
+            if "promoted" in s and "types::numeric::Numeric" in s:
+                import k1
+                fzero = fn.blocks[r[3]]["term"]["loc"].get("line") in k1.float_zero_lines(F, fn)
+            if "arg2.value" in s and ("Numeric::zero()" in s or fzero):
                 return {"false"} if r[1].endswith("::eq") else {"true"}
         return None
     k2.gate_rule(chk, fn, "exact-quotient", "rink_core::Number::div", "exact-zero-test", acts, acc,
